@@ -184,6 +184,33 @@ func c05OnCommit(w *World, ps *pairState, ci *fakepg.CommitInfo) {
 				have = oc[len(oc)-1].num
 			}
 			w.stat("probe_dependent_commit_checked", 1)
+			if ps.src.node.Reorgs > 0 {
+				// did the referenced pair hold a position below n at some
+				// moment of this call (it unwound while the dependent's step
+				// was in flight)? The dependent read the positions in its first
+				// transaction and did its lookups in the second: in between the
+				// referenced table lost the rows of the unwound blocks.
+				lo := int64(1 << 62)
+				cur := int64(-1)
+				for _, ch := range o.curHist {
+					if ch.seq <= ps.callStartSeq {
+						cur = ch.num
+					}
+				}
+				lo = cur
+				for _, ch := range o.curHist {
+					if ch.seq > ps.callStartSeq && ch.num < lo {
+						lo = ch.num
+					}
+				}
+				if lo < n && cur >= n {
+					w.stat("probe_lookup_during_referenced_unwind", 1)
+					w.violate("lookup-during-referenced-unwind", "pair %s recorded block %d in a step during which the integration it references (%s) unwound to position %d: positions are read in the step's first transaction and the lookups run in the second, so the lookups saw a referenced table without the unwound blocks", ps.key, n, o.key, lo)
+					// rows of this step may be missing for that reason: the row
+					// comparisons of this pair say nothing further in this run
+					ps.lookupsUnreliable = true
+				}
+			}
 			if have >= n {
 				continue
 			}
